@@ -354,3 +354,126 @@ func WriteLogModel(m Model, wl writelog.WriteLog) Model {
 	}
 	return c
 }
+
+// TrieDepth returns the number of internal nodes on the longest root-to-leaf path of the
+// compressed binary radix trie holding the model's keys (computed from the keys alone).
+func TrieDepth(m Model) int {
+	keys := make([][]byte, 0, len(m))
+	for _, k := range m.SortedKeys() {
+		keys = append(keys, []byte(k))
+	}
+	return trieDepth(keys, 0)
+}
+
+// TrieDepthKeys is TrieDepth for a key list.
+func TrieDepthKeys(keys [][]byte) int {
+	m := Model{}
+	for _, k := range keys {
+		m[string(k)] = []byte{}
+	}
+	return TrieDepth(m)
+}
+
+func bitAt(k []byte, i int) int {
+	return int(k[i/8]>>(7-uint(i%8))) & 1
+}
+
+// trieDepth: keys are distinct and all share their first `from` bits.
+func trieDepth(keys [][]byte, from int) int {
+	if len(keys) <= 1 {
+		return 0
+	}
+	// Keys ending exactly at the current position become the internal node's leaf.
+	// Find the first bit position >= from where the keys diverge or one ends.
+	pos := from
+	for {
+		ended := false
+		first := -1
+		diverge := false
+		for _, k := range keys {
+			if len(k)*8 <= pos {
+				ended = true
+				break
+			}
+			b := bitAt(k, pos)
+			if first == -1 {
+				first = b
+			} else if b != first {
+				diverge = true
+			}
+		}
+		if ended || diverge {
+			break
+		}
+		pos++
+	}
+	var left, right [][]byte
+	for _, k := range keys {
+		if len(k)*8 <= pos {
+			continue // leaf of this internal node
+		}
+		if bitAt(k, pos) == 0 {
+			left = append(left, k)
+		} else {
+			right = append(right, k)
+		}
+	}
+	d := trieDepth(left, pos+1)
+	if r := trieDepth(right, pos+1); r > d {
+		d = r
+	}
+	return 1 + d
+}
+
+// PathSlack is the number of cache slots beyond the longest path below which a failure is
+// attributed to eviction of the active path (known finding).
+const PathSlack = 2
+
+// MaxLeafBytes bounds the cache size of one leaf generated by the store engines
+// (node.LeafNodeSize overhead + key <= 72 bytes + value <= 48 bytes).
+const MaxLeafBytes = 256
+
+// CapacityBelowPath reports whether a cache capacity cannot hold the active root-to-leaf path
+// (depth internal nodes, each possibly with its own leaf, plus the target leaf).
+func CapacityBelowPath(nodeCap, valueCap uint64, depth int) bool {
+	if nodeCap > 0 && nodeCap < uint64(depth+PathSlack) {
+		return true
+	}
+	if valueCap > 0 && valueCap < uint64(depth+PathSlack)*MaxLeafBytes {
+		return true
+	}
+	return false
+}
+
+// GenCapacities draws node/value cache capacities relative to the longest path of the key
+// alphabet: mostly capacities that force eviction while holding the active path, some tiny
+// ones (below the path), some unlimited.
+func GenCapacities(r *core.Rand, keys [][]byte, backend string) (nodeCap, valueCap uint64) {
+	if backend == "none" {
+		return 0, 0 // without a node database evicted nodes cannot be re-fetched
+	}
+	d := TrieDepthKeys(keys)
+	if r.Chance(1, 10) { // tiny: below the active path (known-finding territory)
+		if r.Bool() {
+			return uint64(r.Range(1, d+1)), 0
+		}
+		return 0, uint64(r.Range(1, (d+PathSlack)*MaxLeafBytes-1))
+	}
+	switch r.Pick([]int{5, 2, 2}) {
+	case 0:
+		nodeCap = uint64(d + PathSlack + r.Range(0, 4))
+	case 1:
+		nodeCap = uint64(d + PathSlack + r.Range(4, 60))
+	default:
+		nodeCap = 0
+	}
+	switch r.Pick([]int{4, 2, 3}) {
+	case 0:
+		valueCap = uint64((d+PathSlack)*MaxLeafBytes + r.Range(0, 512))
+	case 1:
+		valueCap = uint64((d+PathSlack)*MaxLeafBytes + r.Range(512, 8192))
+	default:
+		valueCap = 0
+	}
+	return
+}
